@@ -1,4 +1,4 @@
-HOOK_COMMITS = ["d183566", "d0e1250", "06b8afe"]
+HOOK_COMMITS = ["d183566", "d0e1250", "06b8afe", "b4f4d44"]
 NOTES = "Driver: ./check <ID> --tier quick|thorough. Exit 0 held / 1 VIOLATION / 2 inconclusive (harness trouble, never a violation). Known findings: known_findings.json."
 NOT_APPLICABLE = {}
 META = {
@@ -67,5 +67,11 @@ META = {
         "design_ref": "DESIGN.md section 4 C04",
         "note": "Restart is modelled by a fresh manager with the catalog state and checkpoints the collection reader would pass; the persisted drop-message table is covered by C17.",
         "technique": "property-based testing (rapid), scenario generator with logical-clock oracle",
+    },
+    "C12": {
+        "text": "Model-based stateful testing with a full-state oracle: after every generated operation on one tenant the complete content of the backend is compared with a map model, so interference with any other record (other tenant, prefix-related task or collection id, other channel entry) is detected immediately; DeleteTask is additionally run with a failure injected at every position for the all-or-nothing clause. Found cross-tenant reads/deletes in the MySQL store, the unscoped etcd replicate store and the over-wide reload prefix (all fixed).",
+        "design_ref": "DESIGN.md section 4 C12",
+        "note": "etcd is the real server (embedded); MySQL is represented by a fake engine implementing the statement shapes of mysql.go with documented LIKE/upsert/transaction semantics - differences of a real server (collation, isolation level) are assumptions.",
+        "technique": "property-based testing (rapid), stateful model-based oracle with full-state comparison, fault injection",
     },
 }
